@@ -38,6 +38,8 @@ type Case struct {
 	Constructions []string
 	// the value of the global zerolog.ErrorFieldName while the event is rendered ("" = the default, "error")
 	ErrName string
+	// the value of the global zerolog.ErrorStackFieldName while the event is rendered ("" = the default, "stack")
+	StackName string
 }
 
 func (cs *Case) errName() string {
@@ -64,6 +66,10 @@ func (cs *Case) json() map[string]interface{} {
 	if cs.ErrName != "" {
 		j["error_field_name_q"] = strconv.Quote(cs.ErrName)
 		j["error_field_name_legend"] = "zerolog.ErrorFieldName is set to this name while the event is rendered (and was while it was logged)"
+	}
+	if cs.StackName != "" {
+		j["error_stack_field_name_q"] = strconv.Quote(cs.StackName)
+		j["error_stack_field_name_legend"] = "zerolog.ErrorStackFieldName is set to this name while the event is rendered (and was while it was logged)"
 	}
 	if cs.Constructions != nil {
 		j["writer_construction_per_rendering"] = cs.Constructions
@@ -102,6 +108,9 @@ func caseFromJSON(j map[string]interface{}) *Case {
 	cs.Opts.TimeFieldFormat, _ = o["time_field_format"].(string)
 	if v, ok := j["error_field_name_q"]; ok {
 		cs.ErrName = unq(v)
+	}
+	if v, ok := j["error_stack_field_name_q"]; ok {
+		cs.StackName = unq(v)
 	}
 	if l, ok := j["writer_construction_per_rendering"].([]interface{}); ok {
 		for _, x := range l {
@@ -152,10 +161,15 @@ var constructPanic string
 
 func render(cs *Case, reps int) obs {
 	var ob obs
-	saved, savedErr := zerolog.TimeFieldFormat, zerolog.ErrorFieldName
+	saved, savedErr, savedStack := zerolog.TimeFieldFormat, zerolog.ErrorFieldName, zerolog.ErrorStackFieldName
 	zerolog.TimeFieldFormat = cs.Opts.TimeFieldFormat
 	zerolog.ErrorFieldName = cs.errName()
-	defer func() { zerolog.TimeFieldFormat, zerolog.ErrorFieldName = saved, savedErr }()
+	if cs.StackName != "" {
+		zerolog.ErrorStackFieldName = cs.StackName
+	}
+	defer func() {
+		zerolog.TimeFieldFormat, zerolog.ErrorFieldName, zerolog.ErrorStackFieldName = saved, savedErr, savedStack
+	}()
 	for i := 0; i < reps; i++ {
 		if i > 0 {
 			// history: between two renderings another ConsoleWriter (sharing only the
@@ -182,7 +196,7 @@ func render(cs *Case, reps int) obs {
 }
 
 func runC16(c *Ctx) {
-	c.Res.Rule = "a case is (event bytes, ConsoleWriter options); events are produced by really logging through zerolog with a seeded generator over every field method (strings of every escaping class incl. control/non-ASCII/invalid UTF-8, all integer/float kinds, bools, nil, Dict/Array/Object/EmbedObject nesting, durations, times, errors, RawJSON, Fields, context fields, user fields named like the reserved names with every value type, the empty key, duplicate keys, keys colliding after escaping), half of them without the trailing newline (as cmd/prettylog passes them); options: PartsOrder nil/empty/permutations/subsets/custom names/repeated names, PartsExclude, FieldsOrder (incl. absent, reserved and repeated names), FieldsExclude, 11 TimeFormats, TimeLocation UTC/fixed offsets/nil(Local=UTC), 9 TimeFieldFormats incl. the four UNIX variants; every case is rendered 3 or 5 times: renderings 0 and 1 by a struct-literal writer, the later ones by writers that reach the same configuration another way (NewConsoleWriter() then assignment of the exported fields, NewConsoleWriter with one or three option functions, a writer constructed and used under a different configuration and then re-assigned, a struct copy of a used writer), rotating from case to case; directed: every construction first/last x 10 configurations; every value type under the message key (Send / Msg(\"\") / Msg(text)) with the message part checked for the number's digits / the string; directed error-field sweep: events with the error field alone / first / last / between other fields / as a number / from the logger's context / absent x FieldsExclude sets with and without the error field's name (alone, with a neighbour, with all others, everything but it, listed twice) x FieldsOrder lists putting names that sort before/after it (and itself) in front, under the default and three renamed zerolog.ErrorFieldName (renamed: monitors only); a panic out of Write is an observation (violation write-panics with the input), also in the auxiliary one-part renderings and in the writes made while a writer is constructed; cmd/prettylog of the repository under test built and fed streams of real events of 100 B .. 60 KiB (line lengths at and around 4096 and its doublings; bulk = long plain/quoted string, hundreds of fields, array, dict, hex, message, error) through stdin / one file / two files, with and without -time-format full and a final newline, its output compared with ConsoleWriter.Write on the same lines; plus a malformed-input stream (model only). non-trivial = the event decodes and at least one field is rendered; distinct by (event, options)"
+	c.Res.Rule = "a case is (event bytes, ConsoleWriter options); events are produced by really logging through zerolog with a seeded generator over every field method (strings of every escaping class incl. control/non-ASCII/invalid UTF-8, all integer/float kinds, bools, nil, Dict/Array/Object/EmbedObject nesting, durations, times, errors, RawJSON, Fields, context fields, user fields named like the reserved names with every value type, the empty key, duplicate keys, keys colliding after escaping), half of them without the trailing newline (as cmd/prettylog passes them); options: PartsOrder nil/empty/permutations/subsets/custom names/repeated names, PartsExclude, FieldsOrder (incl. absent, reserved and repeated names), FieldsExclude, 11 TimeFormats, TimeLocation UTC/fixed offsets/nil(Local=UTC), 9 TimeFieldFormats incl. the four UNIX variants; every case is rendered 3 or 5 times: renderings 0 and 1 by a struct-literal writer, the later ones by writers that reach the same configuration another way (NewConsoleWriter() then assignment of the exported fields, NewConsoleWriter with one or three option functions, a writer constructed and used under a different configuration and then re-assigned, a struct copy of a used writer), rotating from case to case; directed: every construction first/last x 10 configurations; every value type under the message key (Send / Msg(\"\") / Msg(text)) with the message part checked for the number's digits / the string; directed error-field sweep: events with the error field alone / first / last / between other fields / as a number / from the logger's context / absent x FieldsExclude sets with and without the error field's name (alone, with a neighbour, with all others, everything but it, listed twice) x FieldsOrder lists putting names that sort before/after it (and itself) in front, under the default and three renamed zerolog.ErrorFieldName (renamed: monitors only); directed shape sweep: under each documented special field name (stack, error, caller, message, level, time), two ordinary names and a renamed zerolog.ErrorStackFieldName, values of every JSON shape (scalars; objects incl. the func/source/line frame of a stack marshaler, its variants and other keys; empty arrays; arrays of 1-3 frames; arrays of frames with one number / string / null / bool / nested array / other object at every position; arrays of scalars; nested arrays), put on the event with Interface / RawJSON / Arr()+Dict() / a user ErrorStackMarshaler through Stack().Err(), alone / between fields next to an error / from the context, under default options and FieldsOrder / FieldsExclude / PartsOrder naming the field; a panic out of Write is an observation (violation write-panics with the input), also in the auxiliary one-part renderings and in the writes made while a writer is constructed; cmd/prettylog of the repository under test built and fed streams of real events of 100 B .. 60 KiB (line lengths at and around 4096 and its doublings; bulk = long plain/quoted string, hundreds of fields, array, dict, hex, message, error) through stdin / one file / two files, with and without -time-format full and a final newline, its output compared with ConsoleWriter.Write on the same lines; plus a malformed-input stream (model only). non-trivial = the event decodes and at least one field is rendered; distinct by (event, options)"
 	if os.Getenv("NO_COLOR") != "" {
 		c.Note("NO_COLOR is set; irrelevant with NoColor=true")
 	}
@@ -237,7 +251,7 @@ func runC16(c *Ctx) {
 			}
 			c.Hist("value_kind", e.v.kind)
 		}
-		c.Count(strconv.Quote(string(cs.Event))+"|"+cs.Opts.coq()+"|"+cs.ErrName, dec.ok && nfields > 0)
+		c.Count(strconv.Quote(string(cs.Event))+"|"+cs.Opts.coq()+"|"+cs.ErrName+"|"+cs.StackName, dec.ok && nfields > 0)
 		c.Hist("class", class)
 		c.Hist("rendered_fields", fmt.Sprintf("%d", nfields))
 		c.Hist("input_bytes", fmt.Sprintf("%d", len(cs.Event)/100*100))
@@ -595,6 +609,9 @@ func runC16(c *Ctx) {
 			}
 		}
 	}
+
+	// ---- directed: values of every JSON shape under every documented special field name (shapes.go)
+	shapeSweep(emit, logged, def, c.Hist)
 
 	// ---- directed: the ways of arriving at one configuration (construct.go).  Every construction as the FIRST
 	// rendering (the one the model predicts) and as the last, against the struct literal in between, over
